@@ -219,3 +219,27 @@ func HarnessC14LangLen(idx, L int) {
 	vassert("C09.out.desc.crc", crc == computeCRC32(got[:len(got)-4]))
 	vreach("C14.langlen.end")
 }
+
+// HarnessC09Desc: a PMT whose elementary stream carries one descriptor of the idx-th kind (every shape the model draws:
+// optional parts present or absent, counts, variable-length fields): ES_info_length, section_length and the position
+// and value of the CRC_32 match the bytes actually written (the calc*Length helpers agree with the writers)
+func HarnessC09Desc(idx, level int) {
+	d := vModelDescriptor(idx, level)
+	d.Length = vnondetU8()
+	pmt := &PMTData{ProgramNumber: 1, PCRPID: 0x100, ElementaryStreams: []*PMTElementaryStream{{StreamType: StreamTypeAACAudio, ElementaryPID: 0x100, ElementaryStreamDescriptors: []*Descriptor{d}}}}
+	sec := &PSISection{Header: &PSISectionHeader{TableID: PSITableIDPMT, SectionSyntaxIndicator: true},
+		Syntax: &PSISectionSyntax{Header: &PSISectionSyntaxHeader{TableIDExtension: 1, CurrentNextIndicator: true}, Data: &PSISectionSyntaxData{PMT: pmt}}}
+	sec.Header.SectionLength = calcPSISectionLength(sec)
+	sink := newVSink()
+	w := astikit.NewBitsWriter(astikit.BitsWriterOptions{Writer: sink})
+	_, err := writePSIData(w, &PSIData{Sections: []*PSISection{sec}})
+	vassert("C09.out.desc.err", err == nil)
+	got := sink.buf[1:]
+	f10 := d.Tag == DescriptorTagVBIData
+	vassertK("C09.out.desc.length", "F10", f10, int(uint16(got[1]&0xf)<<8|uint16(got[2])) == len(got)-3)
+	// table_id..program_info_length 12 bytes, stream_type + PID 3 bytes, then ES_info_length
+	vassertK("C09.out.desc.eslen", "F10", f10, len(got) >= 21 && int(uint16(got[15]&0xf)<<8|uint16(got[16])) == len(got)-17-4)
+	crc := uint32(got[len(got)-4])<<24 | uint32(got[len(got)-3])<<16 | uint32(got[len(got)-2])<<8 | uint32(got[len(got)-1])
+	vassert("C09.out.desc.crc", crc == computeCRC32(got[:len(got)-4]))
+	vreach("C09.desc.end")
+}
